@@ -621,6 +621,15 @@ impl<T> TypecheckFlags<T>
 where
     T: Deref<Target = ClassType>,
 {
+    /// Whether these are the flags that `==` on types compares with.
+    pub fn is_classless(&self) -> bool {
+        self.executing_class.is_none()
+            && !self.lhs_allow_optional_unwrap
+            && !self.force_rhs_to_be_unwrapped_lhs
+            && !self.signature_check
+            && !self.enforce_str_comptime_len_if_present
+    }
+
     pub const fn classless() -> Self {
         Self {
             executing_class: None,
@@ -1552,6 +1561,12 @@ impl TypeLayout {
             } else {
                 true
             };
+        }
+
+        // `==` on two list types IS the comparison below done with classless flags: repeating
+        // it at every nesting level would double the work per level.
+        if flags.is_classless() && matches!((lhs.as_ref(), rhs.as_ref()), (Self::List(_), Self::List(_))) {
+            return false;
         }
 
         match (lhs.as_ref(), rhs.as_ref(), &flags.executing_class) {
